@@ -293,10 +293,8 @@ static void oversize_workload(Harness& H, bool thorough)
       }
 }
 
-int main(int argc, char** argv)
+static void body(Ctx& C)
 {
-   auto& C = ctx();
-   C.parse(argc, argv);
    C.rule("a case = one interned word, distinct by content; sources are exact-size heap buffers without terminator; families: every "
           "length 0..96, every multiple of 16 +-{0,1,7,8,9}, all 256 byte values, NUL placements, equal-hash equal-length chains "
           "(constructed by inverting the platform hash and verified with std::hash), pool-boundary requests steered through the hook "
@@ -343,6 +341,6 @@ int main(int argc, char** argv)
    C.sample(J().s("kind", "word").s("family", "granule-boundaries").n("length", 4097).str());
    C.sample(J().s("kind", "word").s("family", "reserved-near-miss").s("bytes", "unsigned  long").str());
    C.sample(J().s("kind", "word").s("family", "equal-hash").n("length", 56).s("note", "64 words of equal length and equal std::hash").str());
-   C.finish();
-   return 0;
 }
+
+int main(int argc, char** argv) { return guarded_main(argc, argv, body); }
